@@ -14,7 +14,7 @@ from vlib import topogen
 PROPERTY = 'C02'
 LEVEL = 'exploration'
 SHARDS = {'quick': 4, 'thorough': 16}
-TIME_BUDGET = {'quick': 100, 'thorough': 850}
+TIME_BUDGET = {"quick": 100, "thorough": 800}
 
 KINDS = SG.KINDS
 ELEM = {'node': 'Node', 'component': 'Component', 'service': 'NetworkService', 'interface': 'Interface',
@@ -611,7 +611,7 @@ def run(ctx):
             if i % ctx.nshards != ctx.shard:
                 continue
             run_one(ctx, vocab, item, f'{ctx.seed}/sys/{i}', i)
-        n = ctx.pick(420, 6000)
+        n = ctx.pick(300, 2400)
         combos = [(st, fl) for st in ('shared', 'disjoint') for fl in ('experiment', 'substrate')]
         for i in range(n):
             if ctx.out_of_time():
